@@ -526,6 +526,7 @@ var protTargets = []string{
 	"/noindex/priv/n1.txt", "/noindex/priv/", "/noindex/priv/more/n2.txt", "/noindex/PRIV/n1.txt", "/noindex//priv/n1.txt", "/noindex/./priv/n1.txt", "/noindex/priv/?archive=zip", "/noindex/?archive=tar", "/noindex/?archive=tar.gz", "/noindex/", "/noindex/inner/../priv/n1.txt",
 	"/secret/fcgi/x", "/secret/fcgi/x.php", "/SECRET/fcgi/x", "/pfcgi/../secret/fcgi/y", "/secret/fcgi/", "/falias", "/internal/fcgi/z", "/pfcgi/q", "/pfcgi/secret/s1.txt", "//secret/fcgi/x", "/secret/./fcgi/x",
 	"/public/p1", "/public/p1.txt", "/secret/page", "/secret/s1",
+	"/secret/public.key", "/secret/pubkeys/k.txt", "/secret/pubkeys/", "/secret/PUBLIC.key", "/secret/pub/../public.key",
 	"/secret/s1.txt?x=1", "/secret/s1.txt/", "/secret/deep", "/secret/deep/", "/secret\\s1.txt", "/secret/s1.txt%00", "/secret;/s1.txt", "/.//secret/s1.txt",
 }
 
@@ -558,6 +559,10 @@ func genSite(t *rapid.T) Site {
 	}
 	if kind >= 2 {
 		s.Internal = []string{rapid.SampledFrom(scopeSpell["/internal"]).Draw(t, "int0")}
+		if rapid.IntRange(0, 2).Draw(t, "intghost") == 0 {
+			// an internal path with nothing on disk, written before the others (a URL prefix served by a backend, say)
+			s.Internal = append([]string{rapid.SampledFrom([]string{"/api/private", "/no/such/file.txt"}).Draw(t, "intg")}, s.Internal...)
+		}
 		if rapid.IntRange(0, 3).Draw(t, "intfile") == 0 {
 			// an internal *file*, among them index pages of directories that are not internal themselves
 			s.Internal = append(s.Internal, rapid.SampledFrom([]string{"/secret/index.html", "/index.html", "/public/p1.txt", "/noindex/priv/n1.txt"}).Draw(t, "intf"))
@@ -696,7 +701,7 @@ func TestProtected(t *testing.T) {
 		n := rapid.IntRange(15, 50).Draw(t, "nreq")
 		for i := 0; i < n; i++ {
 			lb := fmt.Sprintf("r%d", i)
-			r := Req{Method: rapid.SampledFrom([]string{"GET", "GET", "GET", "HEAD", "POST", "PUT", "DELETE", "PROPFIND", "OPTIONS"}).Draw(t, lb+"m"),
+			r := Req{Method: rapid.SampledFrom([]string{"GET", "GET", "GET", "HEAD", "POST", "PUT", "DELETE", "PROPFIND", "OPTIONS", "options", "Options", "OPTIONSX", "get"}).Draw(t, lb+"m"),
 				Target: genTarget(t, c.Site, lb),
 				AE:     rapid.SampledFrom([]string{"-", "gzip", "gzip, br", "zstd, gzip"}).Draw(t, lb+"ae"),
 				Cred:   rapid.SampledFrom([]string{"none", "none", "none", "wrongpw", "wronguser", "emptypw", "fileuser", "malformed", "rule0", "rule0", "rule1"}).Draw(t, lb+"c")}
